@@ -7,7 +7,8 @@ import sweeprun
 
 ID = "C06"
 MODULE = "HttpcoreModel.Props.C06"
-THEOREMS = [f"Httpcore.C06.{n}" for n in sweeprun.C06_THEOREMS]
+THEOREMS = [f"Httpcore.C06.{n}" for n in sweeprun.C06_THEOREMS] + ["Httpcore.LifeProps.h1_out_of_service_means_stream_closed",
+                                                                       "Httpcore.LifeProps.h1_unfinished_exchange_closes_stream"]
 TRUSTED = [
     "Lean 4.33 kernel; axioms per theorem under coverage.theorems",
     "hand-written transition-system model Sys (shared with C05), tied to the code by the fault/cancellation sweeps and the concurrent explorer of this "
@@ -15,6 +16,8 @@ TRUSTED = [
     "the simulated start_tls follows the real back ends' contract: the underlying stream is closed when the handshake fails with an exception, not when it is cancelled",
     "Sys is tied to the real pool step by step (harness/sysconf.py): after every scheduling step of explored runs the real pool is projected onto Sys's state space and the Lean driver searches Sys.step breadth-first for a model run between consecutive observations (this run)",
 ]
+TRUSTED.append("the two life-cycle theorems are about the statement-level translation of http11.py's _response_closed / aclose / gate (Generated.lean, regenerated "
+               "by this run: Tie A), lock-stepped with the implementation by the connection life-cycle event log (C01/C09 runs) and by this run's hand-over scenarios on the stream ledger")
 ASSUMPTIONS = ["no responses are outstanding when the pool is closed", "trace call-backs do not suspend"]
 LEVEL_TEXT = ("Lean 4 theorems about the transition-system model: in every reachable state (every interleaving, fault position, scope-cancellation point) "
               "each open stream is owned by a pooled connection or by a connection a live caller is closing; with no caller running, closing the pool "
@@ -27,8 +30,70 @@ TECHNIQUE = "Lean 4 proof (inductive invariant: every open stream has an owner) 
 DESIGN_REF = "§5 C06"
 
 
+def run_handover(kind, leading, after, close_stream, reads):
+    """A 101 / CONNECT-2xx exchange whose stream is handed to the caller; then `after` ordinary requests; then the pool is closed.
+    The documented pattern closes the response only (close_stream=False).  -> (streams still open after the pool was closed, outcome)"""
+    import httpcore
+    import h1gen
+    import simnet
+    head = (b"HTTP/1.1 101 Switching Protocols\r\nUpgrade: websocket\r\nConnection: upgrade\r\n\r\n" if kind == "101"
+            else b"HTTP/1.1 200 Connection established\r\n\r\n")
+    peers = []
+
+    def factory(rec):
+        first = not peers
+        peers.append(h1gen.OpenPeer([head + leading] if first else [b"HTTP/1.1 200 OK\r\nContent-Length: 2\r\n\r\nok"] * 4, eof=False))
+        return peers[-1]
+    net = simnet.Net(simnet.Behavior(peer_factory=factory))
+    outcome = "complete"
+    try:
+        with propbase.time_limit(5.0):
+            pool = httpcore.ConnectionPool(network_backend=simnet.SimBackend(net))
+            if kind == "101":
+                method, url, headers = "GET", "http://example.com/ws", [("Connection", "upgrade"), ("Upgrade", "websocket")]
+            else:
+                method, url, headers = "CONNECT", httpcore.URL(scheme=b"http", host=b"example.com", port=80, target=b"target.example:443"), []
+            with pool.stream(method, url, headers=headers) as resp:
+                ns = resp.extensions["network_stream"]
+                got = 0
+                for _ in range(reads):
+                    if got >= len(leading):
+                        break
+                    got += len(ns.read(max_bytes=3, timeout=5))
+                if close_stream:
+                    ns.close()
+            for i in range(after):
+                pool.request("GET", "http://example.com/%d" % i)
+            pool.close()
+    except propbase.HangDetected:
+        outcome = "hang"
+    except BaseException as e:  # noqa
+        outcome = "error:" + type(e).__name__ + ":" + repr(e)[:80]
+    return net.open_sockets(), outcome
+
+
+def handover_scenarios(ctx, rec):
+    for kind in ("101", "connect"):
+        for leading in (b"", b"abcdefg"):
+            for after in (0, 1, 2):
+                for close_stream in (False, True):
+                    for reads in (0, 1, 9):
+                        still, outcome = run_handover(kind, leading, after, close_stream, reads)
+                        rec.evals += 1
+                        rec.distinct.add(("handover", kind, leading, after, close_stream, reads))
+                        rec.dist["handover:" + kind] += 1
+                        rec.dist["handover-outcome:" + outcome.split(":")[0]] += 1
+                        payload = {"scenario": "handover", "kind": kind, "leading": leading.hex(), "requests_after": after,
+                                   "caller_closes_network_stream": close_stream, "reads": reads, "outcome": outcome, "open_after_pool_close": still}
+                        if outcome != "complete":
+                            rec.fail("C06:handover-run-failed", {"kind": kind}, payload)
+                        elif still:
+                            rec.fail("C06:stream-leaked-after-pool-close", {"kind": "handover-" + kind}, payload)
+
+
 def run(ctx, driver):
     rec = propbase.Rec(ctx, ID)
+    handover_scenarios(ctx, rec)
     import sysconf
     sysconf.run_conformance(ctx, rec, 60, 2000)
     sweeprun.run_sweeps(ctx, rec, ID, ["C06:"])
